@@ -40,6 +40,10 @@ def node(uid, cell, relevant, moving):
                      [1.0, 0.0] if moving else None, Time(0.0, 0.0) if moving else None))
 
 
+def drift_has(drift, word):
+    return any(word in d.get("what", "") for d in drift)
+
+
 def replay(beh, cfg, drift):
     """Property level (a mismatch): per cell the recorded units (occupants + surplus) are the relevant non-active units whose
     position is in that cell, each once; no cell lists more occupants than the limit; the active unit and its cell; the
@@ -60,7 +64,15 @@ def replay(beh, cfg, drift):
     occ = SingleActiveCellOccupancy(cells, 1, maximum_number_occupants=maxocc, charge="q" if filt else None)
     cell_of = {u: beh["init"][u - 1] for u in range(1, nunits + 1)}
     occ.initialize([node(u, cell_of[u], u in relevant, False) for u in range(1, nunits + 1)])
-    ns = types.SimpleNamespace(_internal_state=occ)
+    stubs = {}
+
+    def stub(cls):
+        # a bare instance of the real tagger class (methods and class attributes available), bound to the occupancy
+        if cls not in stubs:
+            obj = object.__new__(cls)
+            obj._internal_state = occ
+            stubs[cls] = obj
+        return stubs[cls]
     boundary = CellBoundaryEventHandler()
     boundary.initialize(cells, 1)
     moving = None
@@ -122,14 +134,21 @@ def replay(beh, cfg, drift):
             continue
         # ---- partition through the real generators
         a = (act[0][1])
-        near = sorted(t[1][0] for t in ExcludedCellsTagger.yield_identifiers_send_event_time(ns, []))
-        sur = sorted(t[1][0] for t in SurplusCellsTagger.yield_identifiers_send_event_time(ns, []))
-        bounding = list(CellBoundingPotentialTagger.yield_identifiers_send_event_time(ns, []))
+        try:
+            near = sorted(t[1][0] for t in ExcludedCellsTagger.yield_identifiers_send_event_time(stub(ExcludedCellsTagger), []))
+            sur = sorted(t[1][0] for t in SurplusCellsTagger.yield_identifiers_send_event_time(stub(SurplusCellsTagger), []))
+            bounding = list(CellBoundingPotentialTagger.yield_identifiers_send_event_time(stub(CellBoundingPotentialTagger), []))
+        except AttributeError as e:
+            # the generators are driven on bare tagger objects (no event handlers, no activator); a tagger that needs more of
+            # its own state than the internal state cannot be driven this way -- the partition is then judged on recorded runs only
+            if "has no attribute" in str(e) and not drift_has(drift, "stand-alone"):
+                drift.append(dict(step=step, what="tagger generators cannot be driven stand-alone (%s)" % e))
+            continue
         veto_b = sorted(x[0] for t in bounding for x in t[1:])
         veto_cells = {c: [i[0] for i in occ[cl[c]]] for c, _ in obs["vetoCells"]}      # target lookup of the mediator
         veto_v = sorted(x for v in veto_cells.values() for x in v)
-        cv = list(CellVetoTagger.yield_identifiers_send_event_time(ns, []))
-        cb = list(CellBoundaryTagger.yield_identifiers_send_event_time(ns, []))
+        cv = list(CellVetoTagger.yield_identifiers_send_event_time(stub(CellVetoTagger), []))
+        cb = list(CellBoundaryTagger.yield_identifiers_send_event_time(stub(CellBoundaryTagger), []))
         vcells = {c for c, _ in obs["vetoCells"]}
         if (veto_b != veto_v or any(cell_of[u] in vcells for u in near) or any(cell_of[u] not in vcells for u in veto_b)):
             return dict(step=step, what="targets of the cell-based tagger families differ from CellOcc.tla's partition",
